@@ -1,5 +1,6 @@
 """C24 Index decode — one shared entry decoder for every thread limit (CG), stat field order agrees between sibling decoders and git (TAB)."""
 from props import _index_fields as ixf
+from gx.flow import Flow
 
 TECHNIQUE = "who-may-call rule for the entry decoder, ordered join of worker results, field-sequence agreement (k-th on-disk u32 -> struct field) between sibling decoders and the format"
 EXPLANATION = ("(1) gix_index::decode: Entry values are constructed only in entries::load_one, load_one is called only from entries::chunk, and "
@@ -12,6 +13,7 @@ EXPLANATION = ("(1) gix_index::decode: Entry values are constructed only in entr
 
 
 def run(db, chk):
+    tree_ext_order_rule(db, chk)
     dec = [f for f in db.by_crate["gix_index"] if f.kind != "promoted"]
     # who constructs Entry / who calls load_one / who calls chunk
     builders = {f.name for f in dec if "::decode::" in f.name for bi, si, pl, rv, ln, mc in f.assigns() if rv[0] == "agg" and rv[1] == "adt" and rv[2] == "gix_index::Entry"}
@@ -77,3 +79,26 @@ def run(db, chk):
         chk.ob("stat-slots-contiguous", f.name, slots == list(range(len(slots))), "slots %s" % slots, "%s:%d" % (f.file, f.line), key="stat-slots|%s" % f.name)
         chk.sample({"decoder": f.name, "sequence": seq})
     chk.floor("functions decoding stat_data", n, 2)
+
+
+def tree_ext_order_rule(db, chk):
+    """TREE extension: git writes sibling sub-trees ordered by (length, bytes), which is not the byte order lookups use; the reader therefore has to
+    SORT what it read (and may reject duplicates), it cannot reject a node because its children are not in byte order."""
+    f = db.one(r"^gix_index::extension::tree::decode::one_recursive$")
+    fam = [f] + [g for g in db.closures_of(f) if g.kind == "closure"]
+    sorts = [c for c in f.calls() if c.is_(r"::(sort_by|sort|sort_unstable_by|sort_unstable|sort_by_key)$")]
+    sort_clos = set()
+    for c in sorts:
+        for a in c.args:
+            for r in Flow(f).roots(a, stop_named=False):
+                if r[0] == "const" and isinstance(r[1], str) and r[1].startswith("agg:"):
+                    sort_clos.add(r[1][4:-2])
+    chk.ob("tree-ext-children-sorted-by-reader", "extension::tree::decode::one_recursive", bool(sorts),
+           "the decoded sub-trees are not sorted by the reader although git's on-disk order (length first) differs from the byte order used for lookups", "%s:%d" % (f.file, f.line), key="tree-ext-sort|one_recursive")
+    ordering = [(g, c) for g in fam if g.name not in sort_clos for c in g.calls() if c.is_(r"cmp::PartialOrd(<.*>)?>?::(ge|gt|lt|le)$|::partial_cmp$")]
+    for g, c in ordering:
+        chk.ob("tree-ext-no-order-requirement", "%s %s@%d" % (g.name.split("::")[-1], c.name.split("::")[-1], c.line), False,
+               "the reader demands an order of sibling sub-trees: a cache tree written by git with siblings `b`, `aa` (git sorts by length first) would be rejected as a whole",
+               c.where(), key="tree-ext-order|%s" % c.name.split("::")[-1])
+    if not ordering:
+        chk.ob("tree-ext-no-order-requirement", "one_recursive (no ordering test outside the sort comparator)", True)
